@@ -59,19 +59,7 @@ def check_dispatch(res, repo):
         res.ok(rule, {"site": ap.where, "from_list first-element types": sorted(fl_types | {"float", "int"}), "dispatch arm accepts": sorted(arm_types)}, nontrivial="dispatch:row-types")
     else:
         res.fail(rule, finding("C19", rule, ap, ap.node, f"Candle.from_list recognises a leading {sorted(fl_types)} but the list arm of append only routes rows starting with {sorted(arm_types)}: an equivalent encoding raises TypeError", construct="append: row first-element types"))
-    # every converter ends in the one constructor with the six slots
-    for name in ("from_dict", "from_list"):
-        m = repo.method("hexital.core.candle", "Candle", name)
-        ctor = [c for c in calls_in(m.node) if call_target(c) in ("cls", "Candle")]
-        if len(ctor) == 1 and len(ctor[0].args) + len(ctor[0].keywords) == 6:
-            slots = [ast.unparse(a) for a in ctor[0].args] + [f"{k.arg}={ast.unparse(k.value)}" for k in ctor[0].keywords]
-            order_ok = _slots_ok(name, ctor[0], m.node)
-            if order_ok:
-                res.ok(rule, {"site": m.where, "constructor": slots}, nontrivial=f"{name}:slots")
-            else:
-                res.fail(rule, finding("C19", rule, m, ctor[0], "the converter does not fill (open, high, low, close, volume, timestamp) from the corresponding keys/positions"))
-        else:
-            res.fail(rule, finding("C19", rule, m, m.node, "converter no longer builds the candle through one constructor call with six slots", construct=f"{name}: constructor"))
+    check_converters("C19", res, repo)
     for name, inner in (("from_dicts", "Candle.from_dict"), ("from_lists", "Candle.from_list")):
         m = repo.method("hexital.core.candle", "Candle", name)
         if any(call_target(c) == inner for c in calls_in(m.node)):
@@ -81,6 +69,22 @@ def check_dispatch(res, repo):
     from ..ownership import check_raw_copies
 
     check_raw_copies("C19", res, repo, want=("method", "append"))
+
+
+def check_converters(prop, res, repo, rule="R-DISPATCH"):
+    """every converter ends in the one constructor, each of the six slots filled from the key / position of the same name"""
+    for name in ("from_dict", "from_list"):
+        m = repo.method("hexital.core.candle", "Candle", name)
+        ctor = [c for c in calls_in(m.node) if call_target(c) in ("cls", "Candle")]
+        if len(ctor) == 1 and len(ctor[0].args) + len(ctor[0].keywords) == 6:
+            slots = [ast.unparse(a) for a in ctor[0].args] + [f"{k.arg}={ast.unparse(k.value)}" for k in ctor[0].keywords]
+            order_ok = _slots_ok(name, ctor[0], m.node)
+            if order_ok:
+                res.ok(rule, {"site": m.where, "constructor": slots}, nontrivial=f"{name}:slots")
+            else:
+                res.fail(rule, finding(prop, rule, m, ctor[0], "the converter does not fill (open, high, low, close, volume, timestamp) from the corresponding keys/positions only: a well-formed input row can become a candle whose close/open lies outside [low, high]"))
+        else:
+            res.fail(rule, finding(prop, rule, m, m.node, "converter no longer builds the candle through one constructor call with six slots", construct=f"{name}: constructor"))
 
 
 def _is_first_elem(node) -> bool:
@@ -96,11 +100,15 @@ def _type_names(node):
 def _slots_ok(name, ctor: ast.Call, fn=None) -> bool:
     want = ["open", "high", "low", "close", "volume", "timestamp"]
     if name == "from_dict":
-        got = []
-        for a in list(ctor.args) + [k.value for k in ctor.keywords]:
-            txt = ast.unparse(a)
-            got.append(next((w for w in want if f"'{w}'" in txt), None))
-        return got == want
+        # every key consulted for a slot is that slot's own name (any capitalisation): nothing else may stand in for a price
+        slots = list(ctor.args) + [k.value for k in ctor.keywords]
+        if len(slots) != 6:
+            return False
+        for w, a in zip(want, slots):
+            keys = [n.value for n in ast.walk(a) if isinstance(n, ast.Constant) and isinstance(n.value, str)]
+            if not keys or any(k.lower() != w for k in keys):
+                return False
+        return True
     kws = {k.arg: k.value for k in ctor.keywords}
     # five positional slots of one row variable ...
     rows = set()
